@@ -423,6 +423,24 @@ def storeEntry (p : Option Policy) (cs : Option Prefix) (respOpts : Option (List
   let sc := storeScope p cs respOpts
   { qid := qid, cd := cd, scope := sc, ttl := capTTL sc.isSome cap ttl, ans := ans }
 
+/-- the part of `cache.New` that decides prefetch threshold and scoped TTL limit
+from the configuration: `CacheConfig.Validate` fails for a cache size below 1024
+or a prefetch percentage above 90, and the fallback repairs exactly the fields
+that failed (size → 1024, prefetch → 0); 1‥9 % is raised to 10 %; the scoped
+limit (`ECSMaxTTL` ← `[ecs] cache_limit_ttl`) is carried through either way. -/
+structure CacheKnobs where
+  size : Nat
+  prefetch : Nat
+  ecsMaxTTL : Nat
+deriving Repr, DecidableEq
+
+def cacheKnobs (size prefetch capTtl : Nat) : CacheKnobs :=
+  let invalid := decide (size < 1024) || decide (prefetch > 90)
+  let size' := if invalid && decide (size < 1024) then 1024 else size
+  let pf' := if invalid && decide (prefetch > 90) then 0 else prefetch
+  let pf'' := if pf' > 0 && pf' < 10 then 10 else pf'
+  { size := size', prefetch := pf'', ecsMaxTTL := capTtl }
+
 /-- `(*CacheEntry).PrefetchEligible`. -/
 def prefetchEligible (e : Entry) : Bool := e.scope.isNone
 
